@@ -105,6 +105,10 @@ def allowlist : List (Nat × Cls) := [
   -- Random.cpp, verification hook (exists only in -DSIMBODY_VERIF builds): statically initialised to null and never
   -- written by the library; only a test harness that wants to inject a raw word sets it
   (key! "SimTK_verif_forceRaw", verifHook),
+  -- ParallelExecutor.cpp / Parallel2DExecutor.cpp / ParallelWorkQueue.cpp, verification hook (SIMBODY_VERIF only): weak
+  -- function pointer, null by default, called (never written) by the library at protocol events; set only by the
+  -- C33/C17 harnesses to trace / perturb thread schedules
+  (key! "SimTK_verif_parallelTraceHook", verifHook),
   -- contact identities: monotone counters; ids are only compared for equality / used as map keys, relative order of the
   -- ids created by one simulation does not depend on the start value
   (key! "SimTK::ContactImpl::createNewContactId()::nextAvailableId", idCounter),
